@@ -156,12 +156,12 @@ Qed.
 
 Lemma write_row_cases s h s' :
   write_row s h = Ok s' ->
-  s' = s \/
+  (s' = s /\ exists c, nth_error (heap s) h = Some c /\ hidden (c_table c) = true) \/
   exists c s1 fs, nth_error (heap s) h = Some c /\ flatten_fields s (c_fields c) = Ok (s1, fs) /\
                   s' = upd_out s1 ((c_table c, ("id"%string, OInt (c_id c)) :: fs) :: out s1).
 Proof.
   unfold write_row. destruct (nth_error (heap s) h) as [c|]; [|discriminate].
-  destruct (hidden (c_table c)); [intros H; injection H as <-; left; reflexivity|].
+  destruct (hidden (c_table c)) eqn:Hh; [intros H; injection H as <-; left; split; [reflexivity|exists c; auto]|].
   intros H. dbind H as [s1 fs]. injection H as <-. right. exists c, s1, fs. auto.
 Qed.
 
@@ -331,7 +331,7 @@ Proof.
     pose proof (rnd_only_dq _ _ Hrnd) as [Hd5 Ht5].
     pose proof (rnd_only_out _ _ Hrnd) as Ho5.
     pose proof (rnd_only_heap _ _ Hrnd) as Hh5.
-    destruct (write_row_cases _ _ _ E1) as [->|(c5 & s5' & fs & Hc5 & Hfl & ->)].
+    destruct (write_row_cases _ _ _ E1) as [(-> & _)|(c5 & s5' & fs & Hc5 & Hfl & ->)].
     + (* hidden table: nothing written *)
       split.
       * eapply incl_tran; [exact I4|]. eapply incl_tran; [exact Id|]. rewrite <- Hd5. exact I7.
@@ -423,3 +423,169 @@ Proof. unfold run_fresh. apply written_references_recorded. reflexivity. Qed.
 Theorem recorded_dependencies_persist e stmts c k s0 s :
   iterations k e stmts c s0 = Ok s -> incl (deps s0) (deps s).
 Proof. intros H. destruct (iterations_deps _ _ _ _ _ _ H) as [HI _]. exact HI. Qed.
+
+(* ------------------------------------------------------------------ the converse: nothing is recorded without a cell *)
+
+(* every visible field whose value points at a table comes out of flatten as a reference cell to it *)
+Lemma flatten_fields_complete fs : forall s s' l,
+  flatten_fields s fs = Ok (s', l) ->
+  forall f v U, In (f, v) fs -> hidden f = false -> target_table s v = Some U ->
+    exists i, In (f, ORef U i) l.
+Proof.
+  induction fs as [|[n w] r IH]; intros s s' l H f v U Hin Hf Ht; [destruct Hin|].
+  cbn [flatten_fields] in H. destruct (hidden n) eqn:Hn.
+  - destruct Hin as [Heq|Hin]; [injection Heq as -> ->; congruence|]. eapply IH; eassumption.
+  - dbind H as [s1 o]. dbind H as [s2 rest]. injection H as <- <-.
+    destruct Hin as [Heq|Hin].
+    + injection Heq as -> ->.
+      destruct v; cbn [target_table] in Ht; try discriminate Ht.
+      * destruct (nth_error (heap s) h) as [c|] eqn:Hc; [|discriminate Ht]. injection Ht as <-.
+        injection E as <- <-. exists (c_id c). left. reflexivity.
+      * destruct (lookup name (slots s)) as [sl|] eqn:Hl; [|discriminate Ht]. injection Ht as <-.
+        dbind E as [s3 j]. injection E as <- <-. exists j. left. reflexivity.
+      * injection Ht as <-. injection E as <- <-. exists id. left. reflexivity.
+    + assert (Hq : dq s s1).
+      { destruct w; try discriminate; try (injection E as <- _; apply dq_refl).
+        - destruct (nth_error (heap s) h); [|discriminate]. injection E as <- _. apply dq_refl.
+        - destruct (lookup name (slots s)); [|discriminate]. dbind E as [s3 j].
+          injection E as <- _. apply touch_slot_dq in E1. exact E1. }
+      destruct Hq as [_ Htt]. destruct (IH _ _ _ E0 f v U Hin Hf) as [i Hi]; [rewrite Htt; exact Ht|].
+      exists i. right. exact Hi.
+Qed.
+
+(* every recorded dependency between a visible table and a visible field is backed by a
+   reference cell of a written row (D: what was recorded before, e.g. by earlier runs) *)
+Definition Sd (D : list (string * string * string)) (s : st) : Prop :=
+  forall T U f, In (T, U, f) (deps s) ->
+    In (T, U, f) D \/ hidden T = true \/ hidden f = true \/
+    exists row i, In row (out s) /\ fst row = T /\ In (f, ORef U i) (snd row).
+
+Lemma Sd_step D s s' : incl (deps s') (deps s) -> extends s s' -> Sd D s -> Sd D s'.
+Proof.
+  intros Hd (new & Ho & _) HS T U f Hin. destruct (HS T U f (Hd _ Hin)) as [H|[H|[H|(row & i & Hr & Ht & Hf)]]]; auto.
+  right; right; right. exists row, i. splits; [rewrite Ho; apply in_or_app; right; exact Hr|exact Ht|exact Hf].
+Qed.
+
+Lemma Sd_same D s s' : deps s' = deps s -> out s' = out s -> Sd D s -> Sd D s'.
+Proof. intros Hd Ho. apply Sd_step; [rewrite Hd; apply incl_refl|apply extends_same; exact Ho]. Qed.
+
+Theorem run_deps_sound fuel : forall e tk s s' r D,
+  run fuel e tk s = Ok (s', r) -> Sd D s -> Sd D s'.
+Proof.
+  induction fuel as [|n IH]; intros e tk s s' r D H HS; [discriminate|].
+  cbn [run] in H. destruct tk as [l c|x c|t|t i cnt last|t i|h fs|d].
+  - destruct l as [|x l]; [injection H as <- _; exact HS|].
+    dbind H as [s1 r1]. eapply IH; [exact H|]. eapply IH; eassumption.
+  - destruct x as [t|name d].
+    + destruct (t_once t && c); [injection H as <- _; exact HS|].
+      dbind H as [s1 r1]. injection H as <- _. eapply IH; eassumption.
+    + destruct d; try discriminate;
+        (dbind H as [s1 r1]; injection H as <- _;
+         apply (Sd_same D (pop_frame s1)); [apply set_var_deps|apply set_var_out|];
+         apply (Sd_same D s1); [apply pop_frame_deps|apply pop_frame_out|];
+         eapply IH; [exact E|]; apply (Sd_same D s); [apply push_frame_deps|apply push_frame_out|exact HS]).
+  - dbind H as [s1 cnt]. dbind H as [s2 r2]. injection H as <- _.
+    apply (Sd_same D s2); [apply pop_frame_deps|apply pop_frame_out|].
+    eapply IH; [exact E0|].
+    destruct (t_count t) as [d|].
+    + dbind E as [s1' r1]. dbind E as w0. injection E as <- _.
+      eapply IH; [exact E1|]. apply (Sd_same D s); [apply push_frame_deps|apply push_frame_out|exact HS].
+    + injection E as <- _. apply (Sd_same D s); [apply push_frame_deps|apply push_frame_out|exact HS].
+  - destruct (i <? cnt); [|injection H as <- _; exact HS].
+    dbind H as [s1 r1]. destruct r1; try discriminate.
+    eapply IH; [exact H|]. eapply IH; [exact E|].
+    apply (Sd_same D s); [apply set_var_deps|apply set_var_out|exact HS].
+  - destruct (new_row_id s (t_table t) (t_nick t)) as [s1 id] eqn:Hid.
+    dbind H as [s4 r4].
+    destruct (nth_error (heap s4) (length (heap s1))) as [c|] eqn:Hc; [|discriminate].
+    dbind H as s5. dbind H as s6. dbind H as [s7 r7]. injection H as <- _.
+    pose proof (run_heap_ext _ _ _ _ _ _ E) as Hext.
+    assert (Hd1 : deps s1 = deps s).
+    { pose proof (new_row_id_deps s (t_table t) (t_nick t)) as Hn. rewrite Hid in Hn. exact Hn. }
+    assert (Ho1 : out s1 = out s).
+    { pose proof (new_row_id_out s (t_table t) (t_nick t)) as Hn. rewrite Hid in Hn. exact Hn. }
+    assert (Htab : c_table c = t_table t).
+    { destruct (Hext (length (heap s1)) (mkCell (t_table t) id i [])) as (c' & Hc' & Hk).
+      - rewrite register_object_heap, set_obj_heap. cbn [heap upd_heap].
+        rewrite nth_error_app2; [|lia]. rewrite Nat.sub_diag. reflexivity.
+      - rewrite Hc in Hc'. injection Hc' as <-. destruct Hk as [Hk _]. exact Hk. }
+    assert (S4 : Sd D s4).
+    { eapply IH; [exact E|]. apply (Sd_same D s); [|rewrite register_object_out, set_obj_out; cbn [out upd_heap]; exact Ho1|exact HS].
+      rewrite register_object_deps, set_obj_deps. cbn [deps upd_heap]. exact Hd1. }
+    destruct (remember_deps_spec (c_fields c) s4 (t_table t)) as (_ & Td & _ & Sdp).
+    set (s4d := remember_deps s4 (t_table t) (c_fields c)) in *.
+    pose proof (remember_history_rnd _ _ _ _ _ _ E0) as Hrnd.
+    pose proof (rnd_only_dq _ _ Hrnd) as [Hd5 Ht5].
+    pose proof (rnd_only_out _ _ Hrnd) as Ho5.
+    pose proof (rnd_only_heap _ _ Hrnd) as Hh5.
+    eapply IH; [exact E2|]. clear E2.
+    intros T U f Hin.
+    destruct (write_row_cases _ _ _ E1) as [(-> & c5 & Hc5 & Hhid)|(c5 & s5' & fs & Hc5 & Hfl & ->)].
+    + (* hidden table: nothing written; new triples have a hidden source table *)
+      rewrite Hh5 in Hc5. unfold s4d in Hc5. rewrite remember_deps_heap, Hc in Hc5. injection Hc5 as <-.
+      rewrite Hd5 in Hin. destruct (Sdp _ Hin) as [Hold|(f0 & v & U0 & _ & _ & Heq)].
+      * destruct (S4 T U f Hold) as [H|[H|[H|(row & j & Hr & Hx & Hf)]]]; auto.
+        right; right; right. exists row, j. rewrite Ho5. unfold s4d. rewrite remember_deps_out. auto.
+      * injection Heq as -> -> ->. right; left. rewrite <- Htab. exact Hhid.
+    + destruct (flatten_fields_ref _ _ _ _ Hfl) as [[Hdf _] _].
+      cbn [deps upd_out out] in *. rewrite Hdf, Hd5 in Hin.
+      assert (Hout : out s5' = out s5).
+      { apply flatten_fields_spec in Hfl. destruct Hfl as [Ho _]. exact Ho. }
+      rewrite Hh5 in Hc5. unfold s4d in Hc5. rewrite remember_deps_heap, Hc in Hc5. injection Hc5 as <-.
+      destruct (Sdp _ Hin) as [Hold|(f0 & v & U0 & Hv & Htv & Heq)].
+      * destruct (S4 T U f Hold) as [H|[H|[H|(row & j & Hr & Hx & Hf)]]]; auto.
+        right; right; right. exists row, j. splits; [right; rewrite Hout, Ho5; unfold s4d; rewrite remember_deps_out; exact Hr|exact Hx|exact Hf].
+      * injection Heq as -> -> ->.
+        destruct (hidden f0) eqn:Hf0; [right; right; left; reflexivity|].
+        right; right; right.
+        destruct (flatten_fields_complete _ _ _ _ Hfl f0 v U0 Hv Hf0) as [j Hj].
+        { rewrite Ht5, Td. exact Htv. }
+        exists (c_table c, ("id"%string, OInt (c_id c)) :: fs), j. splits; [left; reflexivity|exact Htab|right; exact Hj].
+  - destruct fs as [|[name d] fs]; [injection H as <- _; exact HS|].
+    destruct (String.eqb name "id"); [discriminate|].
+    dbind H as [s1 v]. eapply IH; [exact H|].
+    apply (Sd_same D s1); [apply set_field_deps|apply set_field_out|]. eapply IH; eassumption.
+  - destruct d as [z|x|ps|path|t|to].
+    + injection H as <- _. exact HS.
+    + destruct (version e =? 3); [injection H as <- _; exact HS|].
+      dbind H as w0. injection H as <- _. exact HS.
+    + dbind H as [s1 v]. injection H as <- _.
+      pose proof (render_formula_out _ _ _ _ _ E) as Ho. apply render_formula_dq in E. destruct E as [Hd _].
+      eapply Sd_same; eassumption.
+    + dbind H as [s1 v]. injection H as <- _.
+      pose proof (reference_out _ _ _ _ _ E) as Ho. apply reference_dq in E. destruct E as [Hd _].
+      eapply Sd_same; eassumption.
+    + eapply IH; eassumption.
+    + dbind H as [s1 v]. injection H as <- _.
+      pose proof (random_reference_rnd _ _ _ _ _ E) as Hr.
+      pose proof (rnd_only_out _ _ Hr) as Ho. apply rnd_only_dq in Hr. destruct Hr as [Hd _].
+      eapply Sd_same; eassumption.
+Qed.
+
+Lemma iteration_deps_sound e stmts c s s' D : iteration e stmts c s = Ok s' -> Sd D s -> Sd D s'.
+Proof.
+  unfold iteration. intros H. dbind H as [s1 r].
+  destruct (slots_filled s1); [|discriminate].
+  destruct (stale_slot 4 s1 (survivors s1)); [discriminate|]. injection H as <-.
+  intros HS. eapply (run_deps_sound _ _ _ _ _ _ D) in E; [|exact HS]. exact E.
+Qed.
+
+Lemma iterations_deps_sound k : forall e stmts c s s' D, iterations k e stmts c s = Ok s' -> Sd D s -> Sd D s'.
+Proof.
+  induction k as [|k IH]; intros e stmts c s s' D H HS; cbn [iterations] in H.
+  - injection H as <-. exact HS.
+  - dbind H as s1. eapply IH; [exact H|]. eapply iteration_deps_sound; eassumption.
+Qed.
+
+(* One run from a state whose recorded dependencies are D: every dependency it adds between a
+   visible table and a visible field is backed by a reference cell of a row it wrote - so a
+   field that never held a reference in any written row is never a lookup on account of this run. *)
+Theorem recorded_dependencies_backed e stmts c k s0 s :
+  iterations k e stmts c s0 = Ok s ->
+  forall T U f, In (T, U, f) (deps s) ->
+    In (T, U, f) (deps s0) \/ hidden T = true \/ hidden f = true \/
+    exists row i, In row (out s) /\ fst row = T /\ In (f, ORef U i) (snd row).
+Proof.
+  intros H. apply (iterations_deps_sound _ _ _ _ _ _ (deps s0) H).
+  intros T U f Hin. left. exact Hin.
+Qed.
